@@ -2,6 +2,7 @@ import sys
 import time
 import collections
 import operator
+from email.errors import HeaderParseError
 from http.cookies import SimpleCookie, CookieError
 
 import uuid
@@ -766,7 +767,14 @@ class Request(object):
             name = name.title()
             value = value.strip()
 
-            headers[name] = httputil.decode_TEXT_maybe(value)
+            try:
+                headers[name] = httputil.decode_TEXT_maybe(value)
+            except (LookupError, ValueError, HeaderParseError):
+                # An RFC 2047 encoded word naming an unknown charset
+                # (LookupError), with undecodable bytes (UnicodeError)
+                # or with broken base64 (HeaderParseError).
+                raise cherrypy.HTTPError(
+                    400, 'Malformed encoded word in the %r header.' % name)
 
             # Some clients, notably Konquoror, supply multiple
             # cookies on different lines with the same key. To
